@@ -15,6 +15,7 @@ import EdzedModel.FsmTimer
 import EdzedProofs.FsmTimer
 import EdzedProofs.FsmTie
 import EdzedProofs.FsmTimerTie
+import EdzedProofs.FsmRestoreTie
 import EdzedModel.Gen.TranslatedFsmTimer
 import EdzedModel.Gen.TranslatedFsm
 import EdzedModel.Gen.Constants
@@ -610,14 +611,14 @@ assumptions any more: `translated_fsmtimer_ctx_event_with_translated_timers`. -/
 namespace Edzed.TrTie
 open Edzed.FsmTimer Edzed.Gen.TrM Edzed.Gen.TrT
 
-theorem translated_fsmtimer_set_timer_is_model (c : Cfg) (inside : Bool) (n : Int) (tev : TEvent) (t : TSt) :
-    Gen.TrT.setTimer (tprims c inside) (.us n) tev t = (t.map (FsmTimer.setTimer · n.toNat tev), .ok ()) := by
+theorem translated_fsmtimer_set_timer_is_model (c : Cfg) (env : TEnv) (n : Int) (tev : TEvent) (t : TSt) :
+    Gen.TrT.setTimer (tprims c env) (.us n) tev t = (t.map (FsmTimer.setTimer · n.toNat tev), .ok ()) := by
   unfold Gen.TrT.setTimer setTimerBody
   cases hs : t.st.stopped <;>
     ttsimp [FsmTimer.setTimer, hs, armHandle, newHandle, St.emit]
 
-theorem translated_fsmtimer_stop_timer_is_model (c : Cfg) (inside : Bool) (t : TSt) :
-    Gen.TrT.stopTimer (tprims c inside) t = (t.map FsmTimer.stopTimer, .ok ()) := by
+theorem translated_fsmtimer_stop_timer_is_model (c : Cfg) (env : TEnv) (t : TSt) :
+    Gen.TrT.stopTimer (tprims c env) t = (t.map FsmTimer.stopTimer, .ok ()) := by
   unfold Gen.TrT.stopTimer stopTimerBody
   cases ha : t.st.active with
   | none => ttsimp [FsmTimer.stopTimer, ha]
@@ -627,70 +628,75 @@ theorem translated_fsmtimer_stop_timer_is_model (c : Cfg) (inside : Bool) (t : T
     simp only [beq_iff_eq] at this
     exact this.symm
 
-theorem translated_fsmtimer_start_timer_is_model (c : Cfg) (item : Dur) (tev : TEvent) (t : TSt) (q : String)
+theorem translated_fsmtimer_start_timer_is_model (c : Cfg) (env : TEnv) (hin : env.inside = true)
+    (item : Dur) (tev : TEvent) (t : TSt) (q : String)
     (hq : t.st.state = some q) (hf : t.st.failed = none) :
-    failOnError (Gen.TrT.startTimer (tprims c true) item tev t)
+    failOnError (Gen.TrT.startTimer (tprims c env) item tev t)
       = lift (fun s => FsmTimer.startTimer c s q tev item) t := by
   unfold Gen.TrT.startTimer startTimerBody
   cases item with
   | none =>
     cases hd : clamp (c.instDur q) with
-    | none => ttsimp [failOnError, FsmTimer.startTimer, effDur, hq, hf, hd, St.fail]
-    | inf => ttsimp [failOnError, FsmTimer.startTimer, effDur, hq, hf, hd]
-    | bad => ttsimp [failOnError, FsmTimer.startTimer, effDur, hq, hf, hd, St.fail]
+    | none => ttsimp [hin, failOnError, FsmTimer.startTimer, effDur, hq, hf, hd, St.fail]
+    | inf => ttsimp [hin, failOnError, FsmTimer.startTimer, effDur, hq, hf, hd]
+    | bad => ttsimp [hin, failOnError, FsmTimer.startTimer, effDur, hq, hf, hd, St.fail]
     | us n =>
       by_cases hn : n ≤ 0
-      · ttsimp [failOnError, FsmTimer.startTimer, effDur, hq, hf, hd, hn, cmpInt]
+      · ttsimp [hin, failOnError, FsmTimer.startTimer, effDur, hq, hf, hd, hn, cmpInt]
         generalize (eventRec c t.st tev {}).1 = s1
         cases hf1 : s1.failed with
         | none => simp
         | some k => simp [fail_of_failed s1 k hf1]
       · have hfs : (FsmTimer.setTimer t.st n.toNat tev).failed = none := by
           rw [(setTimer_fields t.st n.toNat tev).2.2.2.2.2.1]; exact hf
-        ttsimp [failOnError, FsmTimer.startTimer, effDur, hq, hf, hd, hn, cmpInt,
+        ttsimp [hin, failOnError, FsmTimer.startTimer, effDur, hq, hf, hd, hn, cmpInt,
           translated_fsmtimer_set_timer_is_model, hfs]
-  | inf => ttsimp [failOnError, FsmTimer.startTimer, effDur, clamp, hq, hf]
-  | bad => ttsimp [failOnError, FsmTimer.startTimer, effDur, clamp, hq, hf, St.fail]
+  | inf => ttsimp [hin, failOnError, FsmTimer.startTimer, effDur, clamp, hq, hf]
+  | bad => ttsimp [hin, failOnError, FsmTimer.startTimer, effDur, clamp, hq, hf, St.fail]
   | us n =>
     by_cases hn0 : n < 0
-    · ttsimp [failOnError, FsmTimer.startTimer, effDur, clamp, hq, hf, hn0, cmpInt]
+    · ttsimp [hin, failOnError, FsmTimer.startTimer, effDur, clamp, hq, hf, hn0, cmpInt]
       generalize (eventRec c t.st tev {}).1 = s1
       cases hf1 : s1.failed with
       | none => simp
       | some k => simp [fail_of_failed s1 k hf1]
     · by_cases hn : n ≤ 0
-      · ttsimp [failOnError, FsmTimer.startTimer, effDur, clamp, hq, hf, hn0, hn, cmpInt]
+      · ttsimp [hin, failOnError, FsmTimer.startTimer, effDur, clamp, hq, hf, hn0, hn, cmpInt]
         generalize (eventRec c t.st tev {}).1 = s1
         cases hf1 : s1.failed with
         | none => simp
         | some k => simp [fail_of_failed s1 k hf1]
       · have hfs : (FsmTimer.setTimer t.st n.toNat tev).failed = none := by
           rw [(setTimer_fields t.st n.toNat tev).2.2.2.2.2.1]; exact hf
-        ttsimp [failOnError, FsmTimer.startTimer, effDur, clamp, hq, hf, hn0, hn, cmpInt,
+        ttsimp [hin, failOnError, FsmTimer.startTimer, effDur, clamp, hq, hf, hn0, hn, cmpInt,
           translated_fsmtimer_set_timer_is_model, hfs]
 
-theorem translated_fsmtimer_stop_is_model (c : Cfg) (inside : Bool) (t : TSt) :
-    Gen.TrT.stop (tprims c inside) t = (t.map FsmTimer.stop, .ok ()) := by
+theorem translated_fsmtimer_stop_is_model (c : Cfg) (env : TEnv) (t : TSt) :
+    Gen.TrT.stop (tprims c env) t =
+      (t.map FsmTimer.stop, if env.superFails then .error .fuel else .ok ()) := by
   unfold Gen.TrT.stop stopBody
-  ttsimp [translated_fsmtimer_stop_timer_is_model, FsmTimer.stop]
+  cases hs : env.superFails <;> ttsimp [translated_fsmtimer_stop_timer_is_model, FsmTimer.stop, hs]
 
-theorem translated_fsmtimer_start_enables_timers (c : Cfg) (inside : Bool) (t : TSt) :
-    Gen.TrT.start (tprims c inside) t = (t.map (fun s => { s with stopped := false }), .ok ()) := by
+/-- `start()`: the timers are allowed only after the base classes have started -/
+theorem translated_fsmtimer_start_enables_timers (c : Cfg) (env : TEnv) (t : TSt) :
+    Gen.TrT.start (tprims c env) t =
+      if env.superFails then (t, .error .fuel)
+      else (t.map (fun s => { s with stopped := false }), .ok ()) := by
   unfold Gen.TrT.start startBody
-  ttsimp []
+  cases hs : env.superFails <;> ttsimp [hs]
 
 theorem translated_fsmtimer_timer_expired_is_model (c : Cfg) (s : St) (h : Handle) (a e : Bool) :
-    (Gen.TrT.timerExpired (tprims c false) h.ev ⟨loopPop s h, a, e⟩).1.st = fire c s h := by
+    (Gen.TrT.timerExpired (tprims c { inside := false }) h.ev ⟨loopPop s h, a, e⟩).1.st = fire c s h := by
   unfold Gen.TrT.timerExpired timerExpiredBody
   ttsimp [fire, loopPop, popTimer]
   generalize (deliver c _ h.ev {}).1 = s1
   cases s1.failed <;> simp
 
-theorem translated_fsmtimer_get_state_is_model (c : Cfg) (inside : Bool) (t : TSt) :
-    Gen.TrT.getState (tprims c inside) t =
+theorem translated_fsmtimer_get_state_is_model (c : Cfg) (env : TEnv) (t : TSt) :
+    Gen.TrT.getState (tprims c env) t =
       (t, match FsmTimer.getState t.st with
           | none => .error .invalidState
-          | some (q, tm) => .ok (some q, tm, t.st.input)) := by
+          | some (q, tm) => .ok (some q, tm.map (· + env.wall), t.st.input)) := by
   unfold Gen.TrT.getState getStateBody
   cases hs : t.st.state with
   | none => ttsimp [FsmTimer.getState, hs]
@@ -746,8 +752,8 @@ theorem translated_fsmtimer_init_duration_is_model (c : Cfg)
     (an exception leaving `_start_timer` marks the simulation as failed, like every handler error) -/
 def primsT (c : Cfg) : FsmPrims TSt TEvent EvData String TEvent Val Dur ErrKind :=
   { prims c with
-    startTimer := fun item tev t => failOnError (Gen.TrT.startTimer (tprims c true) item tev t)
-    stopTimer := fun t => Gen.TrT.stopTimer (tprims c true) t }
+    startTimer := fun item tev t => failOnError (Gen.TrT.startTimer (tprims c { inside := true }) item tev t)
+    stopTimer := fun t => Gen.TrT.stopTimer (tprims c { inside := true }) t }
 
 theorem translated_fsmtimer_prims_agree (c : Cfg) : Agrees c (primsT c) := by
   refine ⟨⟨rfl, rfl, rfl, rfl, rfl, rfl, rfl, rfl, rfl, rfl, rfl, rfl, rfl, rfl, rfl, rfl, rfl, rfl, rfl, rfl,
@@ -756,11 +762,11 @@ theorem translated_fsmtimer_prims_agree (c : Cfg) : Agrees c (primsT c) := by
     cases hq : t.st.state with
     | none => rw [hq] at hs; cases hs
     | some q =>
-      show failOnError (Gen.TrT.startTimer (tprims c true) item tev t) = (prims c).startTimer item tev t
-      rw [translated_fsmtimer_start_timer_is_model c item tev t q hq hf]
+      show failOnError (Gen.TrT.startTimer (tprims c { inside := true }) item tev t) = (prims c).startTimer item tev t
+      rw [translated_fsmtimer_start_timer_is_model c { inside := true } rfl item tev t q hq hf]
       simp [prims_startTimer, lift, TSt.map, hq]
   · intro t hf
-    show Gen.TrT.stopTimer (tprims c true) t = (prims c).stopTimer t
+    show Gen.TrT.stopTimer (tprims c { inside := true }) t = (prims c).stopTimer t
     rw [translated_fsmtimer_stop_timer_is_model]
     simp [prims_stopTimer, lift, (stopTimer_fields t.st).1, hf]
 
@@ -785,5 +791,41 @@ example :
     (live (outcome (Gen.TrM.ctxEvent (primsT exCfg) (.ev "go") { dur := .us 3 } ⟨exState, false, false⟩)).1).map
       (fun h => (h.when, h.ev)) = [(70000, .ev "back")] := by
   decide +kernel
+
+/-- `_restore_state` (C06's subject, the same translated program): run on the meaning the primitives have in
+    the model of persistent state it computes exactly `Persist.restore` for the FSM kind -- unknown state
+    refused, remaining time = expiry - now, an expired state ignored (nothing restored), "cannot set a timer
+    for a not timed state", the timer re-armed for the saved expiry by the translated `_set_timer`, then state,
+    sdata and output (assuming `calc_output` does not return UNDEF for the saved state) -/
+theorem translated_fsmtimer_restore_is_persist_model (c : Persist.FsmCls) (cal : Val → Option Bool)
+    (now : Nat) (st : String) (exp : Option Nat) (sd : Data)
+    (hout : ∀ o, c.calcOut st sd = some o → o.isUndef = false) :
+    restoreOutcome (Gen.TrT.restoreState (rprims c now) (st, exp, sd) {})
+      = Persist.restore (.fsm c) cal now (.fsm st exp sd) := by
+  unfold Gen.TrT.restoreState restoreStateBody
+  by_cases hst : st ∈ c.states
+  rotate_left
+  · rtsimp [restoreOutcome, Persist.restore, hst]
+  cases hco : c.calcOut st sd with
+  | none =>
+    cases exp with
+    | none => rtsimp [restoreOutcome, Persist.restore, hst, hco]
+    | some t =>
+      have hz : ((t : Int) - (now : Int) ≤ 0) ↔ t ≤ now := by omega
+      by_cases hle : t ≤ now
+      · cases hte : c.timedEv st <;> rtsimp [restoreOutcome, Persist.restore, hst, hco, hz, hle, hte]
+      · have htn : now + ((t : Int) - (now : Int)).toNat = t := by omega
+        cases hte : c.timedEv st <;> rtsimp [restoreOutcome, Persist.restore, hst, hco, hz, hle, hte, htn]
+  | some o =>
+    have ho := hout o hco
+    cases exp with
+    | none => rtsimp [restoreOutcome, Persist.restore, hst, hco, ho]
+    | some t =>
+      have hz : ((t : Int) - (now : Int) ≤ 0) ↔ t ≤ now := by omega
+      by_cases hle : t ≤ now
+      · cases hte : c.timedEv st <;> rtsimp [restoreOutcome, Persist.restore, hst, hco, hz, hle, hte, ho]
+      · have htn : now + ((t : Int) - (now : Int)).toNat = t := by omega
+        cases hte : c.timedEv st <;> rtsimp [restoreOutcome, Persist.restore, hst, hco, hz, hle, hte, ho, htn]
+        exact Nat.add_sub_of_le (Nat.le_of_lt (Nat.lt_of_not_le hle))
 
 end Edzed.TrTie
